@@ -23,6 +23,26 @@ ENGINES = [
 
 # property id -> dict(level, text, note, technique, engine, design)
 CLAIMS = {
+    "C02": dict(
+        level="other", engine="engine A (cfg.py)",
+        text="Every declared rule is shown to have an enforcing call on every CFG path to a successful return: "
+             "must-pass-through of the four end checks in Handler::evalArguments, dominance of the constraint "
+             "notifications over assignValue (with the argument's canonical key), check() on every path / in every "
+             "tokenizer-loop iteration of all 45 value-taking assign() instantiations (closed under wrappers), "
+             "unknown-element and missing-value paths end in throw, cardinality counted before every command-line "
+             "assignment. Path rules quantify over all command lines because they quantify over all paths.",
+        note="trusts clang AST/CFG and the extractor; exceptions are the only failure channel; value conversion "
+             "itself (boost::lexical_cast) and regex/file-system check semantics are not decided",
+        technique="static analysis: CFG must-pass-through / dominance / sibling agreement over resolved calls"),
+    "C08": dict(
+        level="other", engine="engine A (cfg.py)",
+        text="Sibling agreement between group evaluation and stand-alone evaluation: per-member must-pass-through "
+             "of the same four end checks in Groups::evalArguments, dispatch-loop shape (unknown -> next member -> "
+             "exception), cross-handler key check on every path that adds an argument, all four container pairs "
+             "compared with == and mismatch().",
+        note="trusts clang AST/CFG; per-member identification rules are those of C02; value equality between the "
+             "two evaluation paths is not decided",
+        technique="static analysis: sibling agreement + per-iteration must-pass-through on the CFG"),
     "C09": dict(
         level="other", engine="engine E (effects.py)",
         text="Whole-library effect analysis: every function reachable from the argument-handler API (resolved call "
